@@ -1,6 +1,8 @@
 #!/bin/bash
 # alt_mutant.sh <seeded-id> <check-id>...  evaluate a seeded change in a scratch worktree (/tmp/mrepo), never touching /repo
 id=$1; shift
+exec 8>/verif/work/alt.lock
+flock 8
 wt=/tmp/mrepo
 if [ ! -d $wt ]; then git -C /repo worktree add -q --detach $wt HEAD; fi
 cd $wt && git checkout -q -- . && git checkout -q --detach $(git -C /repo rev-parse HEAD) || exit 2
